@@ -26,12 +26,13 @@ Rec == ndJsonDeserialize(IOEnv.TRACE)
 MaxFail == 100000
 
 VARIABLES l, nf, fl
-tvars == <<l, nf, fl>>
+tvars == <<l, nf, fl, mcst>>   \* mcst: variable of Circuit.tla's design-level model, unused here
 
 Act(p) == ("ACT_" \o p) \in DOMAIN IOEnv
 O(p, name, ok) == IF Act(p) THEN <<p, name, ok>> ELSE <<p, name, TRUE>>
 Has(r, f) == f \in DOMAIN r
 P == "C18"
+PI == "C18I"   \* informational observations: never a violation of C18 (see lib/chk_c18.py)
 
 Ev(e) == l <= Len(Rec) /\ nf < MaxFail /\ Rec[l].ev = e
 
@@ -43,6 +44,7 @@ Step(obs) ==
   /\ fl' = FailNames(obs)
   /\ nf' = nf + (IF fl' = <<>> THEN 0 ELSE 1)
   /\ (fl' # <<>>) => PrintT(<<"OBL_FAIL", l, fl'>>)
+  /\ UNCHANGED mcst
 
 ----------------------------------------------------------------------------
 (* shape of logged data (a malformed log is a harness error, reported under
@@ -96,7 +98,10 @@ SimplifyOkObs(c, roots, k) ==
         O(P, "simplify.roots", shape => k.roots = nroots),
         O(P, "simplify.equiv",
              evalOk => \A i \in 1 .. Len(roots) :
-                          LitTable(nroots[i], ks, it, new) = LitTable(roots[i], ks, it, old)) >>
+                          LitTable(nroots[i], ks, it, new) = LitTable(roots[i], ks, it, old)),
+        \* tolerated by the contract (see Circuit.tla), counted for the report
+        O(PI, "simplify.info.masked_unknown", survivors # {} \/ ~ReachableUnknownInput(c, roots)),
+        O(PI, "simplify.info.unknown_root", \A i \in 1 .. Len(roots) : ~IsUnknown(c, roots[i])) >>
 
 SimplifyErrObs(c, roots, x) ==
   IF ~LitShape(x) THEN << O(P, "harness.shape", FALSE) >>
@@ -131,7 +136,9 @@ Suffix(r) == r.fmt \o (IF r.api = "parse" THEN "" ELSE ":" \o r.api)
 
 ParseObs(r) ==
   IF Has(r.res, "panic") THEN << O(P, "parse.panic:" \o Suffix(r), FALSE) >>
-  ELSE IF Has(r.res, "err") THEN << O(P, "parse.valid_rejected:" \o Suffix(r), r.cls # "valid") >>
+  \* rejecting a member of the format is not a violation of C18 as stated
+  \* ("a problem or a diagnostic"): informational
+  ELSE IF Has(r.res, "err") THEN << O(PI, "parse.valid_rejected:" \o Suffix(r), r.cls # "valid") >>
   ELSE IF Has(r.res.ok, "p") THEN << O(P, "parse.wf:" \o Suffix(r), ProblemWF(r.res.ok.p, r.ac = 1)) >>
   ELSE <<>>
 
@@ -148,7 +155,7 @@ TrPair == Ev("aiger-pair") /\ Step(PairObs(Rec[l]))
 TrReset == Ev("reset") /\ Step(<<>>)
 
 ----------------------------------------------------------------------------
-TrInit == l = 1 /\ nf = 0 /\ fl = <<>>
+TrInit == l = 1 /\ nf = 0 /\ fl = <<>> /\ mcst = <<>>
 TrNext == TrReset \/ TrSimplify \/ TrParse \/ TrPair
 TrSpec == TrInit /\ [][TrNext]_tvars
 
